@@ -1,5 +1,8 @@
 import ShkModel.Lemmas.PrinterFix
 import ShkModel.Lemmas.Escape
+import ShkModel.Lemmas.Template
+import ShkModel.Gen.ClauseRe
+import ShkModel.Model.TemplateTable
 /-!
 # C10 — the printed configuration re-loads to the same play
 
@@ -229,5 +232,73 @@ example : gather [] false [] (splitNl [] ([32, 32] ++ escapeNl [97, 92, 10, 98, 
     = .line ([32, 32] ++ [97, 92, 10, 98, 10, 99, 92] ++ [32]) [[101]] 3 false := by decide
 
 end text
+
+/-! ## Clause lines: what `printCfg` writes is what the clause regexps of `parsecfg.go` take apart
+
+`printCfg` writes a clause as its keywords and fields separated by single blanks.  For the clause
+regexps that are *templates* — keywords, `\s+`, `(\S+)` words, ending in `(.*)$`, `$` or `\s*$`;
+20 of the 33 — the regenerated regexp (`Gen.*Re`, translated from the Go source on every run) is
+literally the regexp of its template (`templates_are_the_regexps`, by evaluation), and for every
+template the backtracking matcher (`Re.run`, the model of `FindStringSubmatch` tied to Go's `regexp`
+by K-RE) takes a rendered line apart into exactly the fields it was rendered from, for all fields. -/
+section clause_lines
+open Shk.Re Shk.Tpl
+
+/-- **the regenerated clause regexps are their templates** (re-checked against the Go source on every run) -/
+theorem templates_are_the_regexps : ∀ e ∈ clauseTemplates, e.1 = Tpl.re e.2.1 e.2.2 := by decide
+
+/-- group numbers of every template are distinct and start at 1 -/
+theorem templates_well_numbered :
+    ∀ e ∈ clauseTemplates, (groupsOf e.2.1 e.2.2).Nodup ∧ ∀ i ∈ groupsOf e.2.1 e.2.2, 1 ≤ i := by decide
+
+/-- **A printed clause line is parsed back into its fields.**  For every template, every list of words (non-empty,
+free of white space) and every trailing text that does not begin with white space: the matcher accepts the rendered
+line — keywords and fields separated by single blanks —, span 0 is the whole line, and the capture of every group
+cuts exactly the field that was printed there. -/
+theorem printed_clause_line_parses (T : List Tok) (f : Fin) (words : List (List Char)) (r : List Char)
+    (hok : Ok T f words r = true) (hnd : (groupsOf T f).Nodup) (hpos : ∀ i ∈ groupsOf T f, 1 ≤ i) :
+    ∃ c, run (Tpl.re T f) (render T f words r) = some c ∧
+      c[0]? = some (some (0, (render T f words r).length)) ∧
+      ∀ i fld, (i, fld) ∈ fieldsOf T f words r →
+        ∃ a b, c[i]? = some (some (a, b)) ∧ slice (render T f words r) a b = fld := by
+  refine ⟨_, run_render T f words r hok, by simp [spans], ?_⟩
+  intro i fld hmem
+  have hfields := caps_are_fields (render T f words r) T f words r 0 hok (by simp)
+  rw [← hfields] at hmem
+  obtain ⟨e, he, heq⟩ := List.mem_map.mp hmem
+  obtain ⟨k, a, b⟩ := e
+  simp only [Prod.mk.injEq] at heq
+  obtain ⟨hk, hs⟩ := heq
+  subst hk
+  have hkeys := capsOf_keys T f words r 0 hok
+  have hlook : (capsOf T f words r 0).lookup k = some (a, b) :=
+    lookup_of_mem_nodup (by rw [hkeys]; exact hnd) he
+  have hkin : k ∈ groupsOf T f := by rw [← hkeys]; exact List.mem_map.mpr ⟨_, he, rfl⟩
+  have h1 := hpos k hkin
+  have hle : k ≤ ngroups (Tpl.re T f) := by
+    have := group_le_ngroups T f k hkin
+    simp [Tpl.re, ngroups]; omega
+  refine ⟨a, b, ?_, hs⟩
+  obtain ⟨j, rfl⟩ : ∃ j, k = j + 1 := ⟨k - 1, by omega⟩
+  simp only [spans, List.getElem?_cons_succ]
+  rw [List.getElem?_map, List.getElem?_range (by omega)]
+  simp [hlook]
+
+/-- the theorem applies to every template regexp of the current source -/
+theorem printed_clause_lines_parse :
+    ∀ e ∈ clauseTemplates, ∀ (words : List (List Char)) (r : List Char), Ok e.2.1 e.2.2 words r = true →
+      ∃ c, run e.1 (render e.2.1 e.2.2 words r) = some c ∧
+        ∀ i fld, (i, fld) ∈ fieldsOf e.2.1 e.2.2 words r →
+          ∃ a b, c[i]? = some (some (a, b)) ∧ slice (render e.2.1 e.2.2 words r) a b = fld := by
+  intro e he words r hok
+  have hwn := templates_well_numbered e he
+  obtain ⟨c, hc, _, hf⟩ := printed_clause_line_parses e.2.1 e.2.2 words r hok hwn.1 hwn.2
+  exact ⟨c, by rw [templates_are_the_regexps e he]; exact hc, hf⟩
+
+/-- non-vacuity: `judge computes y as t > 0.9 ? sqrt(mood) : 0` through the regenerated `computesRe` -/
+example : run Gen.computesRe "judge computes y as t > 0.9 ? 1 : 0".toList
+    = some [some (0, 35), some (0, 5), some (15, 16), some (20, 35)] := by decide
+
+end clause_lines
 
 end Shk.C10
